@@ -346,6 +346,10 @@ func getListLength(data any) (int, error) {
 		return 0, nil
 	case []byte:
 		return len(val), nil
+	case []string:
+		return len(val), nil
+	case []any:
+		return len(val), nil
 	case []int:
 		return len(val), nil
 	case []int32:
